@@ -140,7 +140,7 @@ def chain_numbers(hroot):
 
 def expected_lines(hroot, rel):
     """multiset of (generation, format, digest, action) recorded for the path `rel` (POSIX, relative to hroot);
-    second value: the lines recorded under an earlier name of the file (tolerated, not required)"""
+    second value: the lines recorded under an earlier name of the file (tolerated, not required); third: renamed?"""
     want, earlier = collections.Counter(), collections.Counter()
     gens, _ = history_gens(hroot)
     old = {r["previous"] for _, _, m in gens for r in m["records"] if r["path"] == rel and r["previous"]}
@@ -154,7 +154,7 @@ def expected_lines(hroot, rel):
             elif r["path"] in old:
                 for e in r["entries"]:
                     earlier[(n, e["format"], e["digest"], str(e["action"]))] += 1
-    return want, earlier
+    return want, earlier, bool(old)
 
 
 def same_date(printed, written):
@@ -195,9 +195,8 @@ def parse_sf(out):
     head, lines, bad = None, collections.Counter(), []
     for line in out.split("\n"):
         if line.startswith(HEAD):
-            if head is not None:
-                break  # verbose listing of an earlier name of a renamed file: a second, separate report
-            head = line[len(HEAD) :]
+            if head is None:
+                head = line[len(HEAD) :]
             continue
         g = GEN_RE.match(line)
         if g:
@@ -305,12 +304,13 @@ def check_sf(run, cid, key, root, files, args, cwd, times=(1,), wc="sf"):
     h = W.owner_of(files[0], roots)
     hroot = os.path.join(root, h) if h else root
     gens, consistent = history_gens(hroot)
-    want, earlier = collections.Counter(), collections.Counter()
+    want, earlier, renamed = collections.Counter(), collections.Counter(), False
     for f in files if len(times) == 1 else files[:1]:
         rel = (os.path.relpath(f, h) if h else f).replace(os.sep, "/")
-        w, e = expected_lines(hroot, rel)
+        w, e, r = expected_lines(hroot, rel)
         want += w
         earlier += e
+        renamed = renamed or r
     code, out, exc = W.run("info", args, cwd=cwd)
     run.case(cid, (key + (len(want) > 0,)) if consistent and gens else None, sample={"case": cid, "exit": code, "lines": sum(want.values())})
     inp = {"args": args, "cwd": cwd, "history": h or "."}
@@ -330,6 +330,9 @@ def check_sf(run, cid, key, root, files, args, cwd, times=(1,), wc="sf"):
     if head is not None and code == 0 and not same_path(head, hroot):
         run.violation(cid, f"reports from the history at {head!r}, the nearest enclosing history of {files[0]!r} is {hroot!r}", wc + "/history", inp=inp)
     ok = False
+    if renamed and ("-v" in args or "--verbose" in args):
+        # the verbose report of a renamed file embeds a report on its earlier name, which repeats lines: sets, not counts
+        ok = set(want) <= set(got) and set(got) <= set(want) | set(earlier)
     for k in times:
         wk = collections.Counter({x: c * k for x, c in want.items()})
         extra = got - wk
@@ -354,7 +357,7 @@ def C(target, fmts, extra=()):
     return ("C", target, list(fmts), list(extra))
 
 
-def scripts(spec, nested, tier, fsets):
+def scripts(spec, nested, tier, fsets, rich=True):
     """named step lists; steps: C(target history, formats, extra args) | ("SF", files, formats) | ("W", path, content) |
     ("MV", a, b) | ("RM", path) | ("TZ", zone) | ("IGN", lines)"""
     files = sorted(k for k, v in spec.items() if not k.endswith("/") and not isinstance(v, tuple))
@@ -365,7 +368,7 @@ def scripts(spec, nested, tier, fsets):
     out = collections.OrderedDict()
     out["one"] = base + [C("", ["md5"])]
     mix = [["xxh64"], ["md5", "c4"], ["sha1"], ["xxh64", "md5"], ["xxh3", "xxh128"]]
-    if tier == "thorough":
+    if tier == "thorough" and rich:
         mix = fsets
     out["fmtmix"] = base + [C("", f) for f in mix]
     if f0:
@@ -413,7 +416,7 @@ def scripts(spec, nested, tier, fsets):
             C("", ["c4", "md5"], ["-ii", "@IGN"]),
             C("", ["md5"], ["-i", "!" + f0]),
         ]
-    n_many = 12 if tier != "thorough" else 27
+    n_many = 12 if tier != "thorough" or not rich else 27
     out["many"] = base + [C("", [["md5"], ["xxh64"], ["c4", "md5"]][i % 3], ["-n"] if i % 5 == 4 else []) for i in range(n_many)]
     out["tz"] = base + [
         ("TZ", "Europe/Berlin"),
@@ -580,6 +583,8 @@ def query_world(run, wid, root, tmp, tier):
                 check_folder(run, cid, (wid, "folder", h, sname), hroot, args, cwd)
     # ---- folders without a history of their own
     fs, ds = tree_files(root)
+    # (a dangling symbolic link cannot be named: the option demands an existing path)
+    fs = [f for f in fs if os.path.exists(os.path.join(root, f)) and not os.path.isdir(os.path.join(root, f))]
     plain = [d for d in ds if d not in roots]
     for d in plain if full else plain[rot % 2 : rot % 2 + (2 if tier == "quick" else 0)]:
         cid = f"{wid}/nohistory-folder/{d}"
@@ -587,10 +592,8 @@ def query_world(run, wid, root, tmp, tier):
             check_nohistory(run, cid, (wid, "nohist", d), [os.path.join(root, d)], None, "nohistory-folder")
     # ---- single files: every file on disk (recorded in some, all or no generations)
     for i, f in enumerate(fs):
-        if os.path.isdir(os.path.join(root, f)) or not os.path.exists(os.path.join(root, f)):
-            continue  # (a dangling symbolic link cannot be named: the option demands an existing path)
         h = W.owner_of(f, roots)
-        mates = [g for g in fs if g != f and W.owner_of(g, roots) == h and not os.path.isdir(os.path.join(root, g))]
+        mates = [g for g in fs if g != f and W.owner_of(g, roots) == h]
         other = mates[(i + rot) % len(mates)] if mates else None
         if full:
             spells = ["abs"] + SF_SPELLINGS
@@ -833,7 +836,8 @@ def main():
         wn = 0
         for tree in TREES:
             for ni, nested in enumerate(NESTED[tree]):
-                scr = scripts(TREES[tree], nested, run.tier, fsets)
+                # (thorough: the 22-generation format mix and the 27-generation history on the first placement of every tree)
+                scr = scripts(TREES[tree], nested, run.tier, fsets, rich=ni == 0)
                 pick = set(scr) if run.tier == "thorough" or run.only else quick_selection(tree, ni, list(scr), run.seed)
                 for sname, steps in scr.items():
                     if sname not in pick:
